@@ -359,6 +359,8 @@ class Program:
             kws = {k.arg: k.value for k in d.keywords if k.arg}
             if r and r[0] == 'ext':
                 self._tag_ext(f, r[1], kws, d)
+            elif r and r[0] == 'func':
+                f.tags.setdefault('wrapped_by', []).append(r[1])
             elif isinstance(d.func, ast.Attribute) and d.func.attr == 'register':
                 f.tags.setdefault('register', []).append(d)
             return
@@ -372,6 +374,8 @@ class Program:
             return
         if r[0] == 'ext':
             self._tag_ext(f, r[1], {}, d)
+        elif r[0] == 'func':
+            f.tags.setdefault('wrapped_by', []).append(r[1])     # a decorator defined in the repository
         elif r[0] == 'assign':
             v = r[2]
             if isinstance(v, ast.Call):
